@@ -190,6 +190,24 @@ CLAIMS["C14"] = dict(
     design_ref="DESIGN.md §3 C14",
 )
 
+CLAIMS["C16"] = dict(
+    technique="symbolic evaluation of type-checked HIR into exact rational functions over uninterpreted powf/abs/signum/trig; staged value matching against the published CAM16 forward and inverse equations; exact matrix arithmetic",
+    category="other",
+    text=("For all XYZ inputs and all viewing conditions over the reals: prepare_parameters equals the published derived-parameter formulas "
+          "for each surround (Dark/Dim/Average table values, Percent interpolation) x discounting (Auto D formula / Custom), including the "
+          "pairing of the inverse non-linearity with the forward one (exponent = 1/0.42, constant = 100/F_L·27.13^exponent); Adapt::run and "
+          "Unadapt::run equal sign(x)·400·p/(p+27.13) and its exact inverse on |x|; xyz_to_cam16 equals the CAM16 forward equations quantity "
+          "by quantity (R_a..B_a, a, b, h, e_t, A, J, Q, t with N_c·N_cb, alpha, C, M, s); non_black_cam16_to_xyz equals the published "
+          "step-by-step inverse for each of the 2x3 attribute inputs (p_1 with N_c·N_cb, p_2, r, opponent matrix /1403, inverse "
+          "non-linearity, D_RGB^-1, M16^-1, /100); M16 literals equal the paper, M16^-1·M16 = I within 1e-12; 14 attribute interconversion "
+          "laws hold as rational-function identities; into_cam16 passes the given attribute through, derives the others through the pair "
+          "functions and zeroes them for black; the six partial types hold the attributes their names say, from_full copies same-named "
+          "attributes, into_dynamic tags them with the same-named variant, from_full(into_full(p)) = p away from black, partial -> XYZ is "
+          "cam16_to_xyz of those tags, black -> XYZ 0; UCS J', M' equal the published formulas and their inverses compose to the identity "
+          "exactly. Not decided: floating-point error of the round trip (f32/f64), agreement with the published test vectors' digits."),
+    design_ref="DESIGN.md §3 C16",
+)
+
 NOT_YET = "check under construction (see DESIGN.md §7 build order); will be claimed when its rule is armed"
 NA = {}
 
